@@ -397,6 +397,35 @@ func T1(p *load.Program, r *report.Report) {
 				}
 			}
 		}
+		// the DemuxerData built first and its table field set by assignment (`dd.EIT = data.EIT; ds = append(ds, dd)`)
+		appended := false
+		for _, c := range reachedCalls(nodes) {
+			if isBuiltinCall(p, c, "append") && len(c.Args) >= 2 {
+				appended = true
+			}
+		}
+		if appended {
+			for _, nd := range nodes {
+				as, ok := nd.(*ast.AssignStmt)
+				if !ok || len(as.Lhs) != 1 || len(as.Rhs) != 1 {
+					continue
+				}
+				lf := fieldOf(p, as.Lhs[0])
+				if lf == nil || ownerOf(p, lf) != "DemuxerData" {
+					continue
+				}
+				for _, k := range psiKinds {
+					if lf.Name() == k {
+						delivered[k][id] = true
+						n++
+						f := fieldOf(p, as.Rhs[0])
+						if f == nil || f.Name() != k || ownerOf(p, f) != "PSISectionSyntaxData" {
+							srcBad = append(srcBad, fmt.Sprintf("0x%02x: DemuxerData.%s filled from %s", id, k, types.ExprString(as.Rhs[0])))
+						}
+					}
+				}
+			}
+		}
 		if n > 1 {
 			multiDeliver[id] = true
 		}
@@ -496,7 +525,18 @@ func T1(p *load.Program, r *report.Report) {
 			}
 			break // only the first statement touching the table id qualifies
 		}
-		if adm == nil {
+		if adm == nil && len(fd.Body.List) > 0 {
+			// another spelling of the admission (a switch with a rejecting default, a guard on a local copy): an id is writable
+			// when tracing the function for it reaches the function's last statement, i.e. no branch on the id returned before
+			last := fd.Body.List[len(fd.Body.List)-1]
+			okWritable = t.traceAll("writePSISection", t.qf, func(id int, nodes []ast.Node) {
+				for _, nd := range nodes {
+					if nd == ast.Node(last) {
+						writable[id] = true
+					}
+				}
+			})
+		} else if adm == nil {
 			r.Unknown(ruleT1, "f/writable-set", t.pos(fd), "the first statement of writePSISection that reads the table id is not an `if … { return …, <error> }` admission test")
 		} else {
 			okWritable = true
